@@ -79,7 +79,7 @@ fn pick_tag() -> LocalNameHash {
 /// (start/end, names from the namespace- and text-mode-relevant set or arbitrary short names) from
 /// the initial simulator state, strict mode either refuses or returns the same feedback and leaves the
 /// same namespace stack.
-// @verif props=C03,C06,C15 fns=TreeBuilderSimulator::get_feedback_for_start_tag,TreeBuilderSimulator::get_feedback_for_end_tag
+// @verif props=C03,C06,C15 fns=TreeBuilderSimulator::get_feedback_for_start_tag,TreeBuilderSimulator::get_feedback_for_end_tag quick=C03,C06
 #[kani::proof]
 #[kani::unwind(16)]
 fn c03_strict_success_equals_non_strict() {
